@@ -1,6 +1,7 @@
 package rules
 
 import (
+	"fmt"
 	"go/ast"
 	"go/token"
 	"go/types"
@@ -23,6 +24,7 @@ func init() {
 func runC17(p *eng.Prog, r *eng.Report, tier string) {
 	c := &cx{p, r, tier}
 	c17QuoteChain(c, "C17.10")
+	c17QuoteStartedHasDecoder(c, "C17.12")
 	c17TokenLengthWithinData(c, "C17.11")
 	split := map[string]bool{"styling.Decoder.scan": true, "styling.Decoder.scanSpan": true, "styling.Decoder.scanPre": true}
 	nret := 0
@@ -112,6 +114,21 @@ func runC17(p *eng.Prog, r *eng.Report, tier string) {
 							}
 							if strings.Contains(fa, "!eq(builtin.len(p0),"+k+")") && strings.Contains(fa, "unicode/utf8.FullRune(p0["+k+":])") && !strings.Contains(fa, "!unicode/utf8.FullRune(") {
 								okr = true
+								// the run may be handed on for no other reason: every
+								// disjunct of the fact is "no run", "input ends here" or
+								// "the run ended inside the buffer before a complete
+								// character" (one more escape - "the run ends its line" -
+								// makes the token depend on where the chunk ends)
+								if strings.HasPrefix(fa, "or(") {
+									for _, dj := range splitTop(fa[3:len(fa)-1], " | ") {
+										switch {
+										case dj == "p1", dj == "!lt(0,"+k+")", dj == "eq("+k+",0)", dj == "!lt(0,"+k+")":
+										case strings.HasPrefix(dj, "and(") && strings.Contains(dj, "!eq(builtin.len(p0),"+k+")") && strings.Contains(dj, "unicode/utf8.FullRune(p0["+k+":])") && len(splitTop(dj[4:len(dj)-1], " & ")) == 2:
+										default:
+											okr, whyr = false, "the run is also handed on when "+dj+": whether that holds depends on where the buffer ends"
+										}
+									}
+								}
 							}
 						}
 						c.r.Check("C17.2", f, "run-length token does not end at the end of the buffer", "G: a token whose extent was found by scanning a run is emitted only if the run ended before the end of the buffer AND the next character is complete, or the input ends here (a partial multi-byte white space after '>' belongs to the run)", rs.Pos(), okr, whyr)
@@ -364,6 +381,15 @@ func runC17(p *eng.Prog, r *eng.Report, tier string) {
 					nm++
 					seenEnd[kd] = true
 					c.r.Check("C17.3", f, "mask gains "+kd+"End", "T: an end directive bit schedules both the style bit and itself to be cleared after this token", as.Pos(), clear&xe != 0 && clear&x != 0, "clearMask lacks "+kd+" | "+kd+"End")
+					// ... and nothing of another kind: closing a span nested in
+					// another leaves the outer span's style on the tokens that follow
+					var foreign int64
+					for _, other := range kinds {
+						if other != kd {
+							foreign |= bit(other) | bit(other+"Start") | bit(other+"End")
+						}
+					}
+					c.r.Check("C17.3", f, "mask gains "+kd+"End [only its own bits are cleared]", "T: the bits scheduled for clearing next to an end directive belong to that kind", as.Pos(), clear&foreign&^v == 0, fmt.Sprintf("clearMask also holds bits of other kinds (%#x): the enclosing span loses its style", clear&foreign))
 				}
 			}
 			return true
@@ -590,3 +616,65 @@ func c17TokenLengthWithinData(c *cx, id string) {
 	}
 	c.r.Floor(id, "increments of the token length in scanPre", n, 1)
 }
+
+// c17QuoteStartedHasDecoder (C17.12): Decoder.quoteStarted means "the tokens
+// of this line belong to the inner decoder": Quote(), the delegating arms of
+// scan and the level bookkeeping dereference Decoder.quoteSplit whenever the
+// flag is set. Every store of true into quoteStarted is reached only with the
+// inner decoder in place: each path from the entry passes a store of a non-nil
+// value into quoteSplit or an edge that establishes quoteSplit != nil. A cap
+// on the nesting depth that skips the allocation but still sets the flag makes
+// the 33rd '>' of a line a nil dereference.
+func c17QuoteStartedHasDecoder(c *cx, id string) {
+	n := 0
+	for _, f := range c.allFns() {
+		if !strings.HasPrefix(f.Short, "styling.") {
+			continue
+		}
+		g := f.Graph()
+		for _, w := range f.FieldWrites("styling.Decoder.quoteStarted") {
+			if w.RHS == nil || f.Norm(w.RHS, nil) != "true" {
+				continue
+			}
+			n++
+			root := rootLocalOrRecv(f, w.LHS)
+			cut := eng.Cut{}
+			for _, ce := range g.CondEdges() {
+				for _, a := range ce.Atoms {
+					if a.S == "!eq("+root+".quoteSplit,nil)" {
+						cut[ce.E] = true
+					}
+				}
+			}
+			stored := func(q eng.Point, nd ast.Node) bool {
+				as, ok := nd.(*ast.AssignStmt)
+				if !ok {
+					return false
+				}
+				for i, l := range as.Lhs {
+					if k, _ := f.FieldClass(l); k == "styling.Decoder.quoteSplit" && i < len(as.Rhs) && g.NilnessOf(as.Rhs[i], q) == 1 {
+						return true
+					}
+				}
+				return false
+			}
+			wp, _ := g.Where(w.Stmt)
+			c.r.Check(id, f, "quoteStarted = true", "G: the inner decoder exists on every path to the store (a non-nil store into quoteSplit, or the edge quoteSplit != nil)", w.Stmt.Pos(), !g.Reachable(g.Entry(), wp, cut, stored), "the flag is set on a path on which quoteSplit may be nil: Quote() and the delegating arms of scan dereference it")
+		}
+	}
+	c.r.Floor(id, "stores of true into Decoder.quoteStarted", n, 1)
+}
+
+// rootLocalOrRecv names the base of a selector chain in normal form ("recv",
+// "local:x<T>", "p0").
+func rootLocalOrRecv(f *eng.Fn, e ast.Expr) string {
+	for {
+		sel, ok := ast.Unparen(e).(*ast.SelectorExpr)
+		if !ok {
+			break
+		}
+		e = sel.X
+	}
+	return f.Norm(e, nil)
+}
+
